@@ -63,6 +63,8 @@ INST = {
     "one_h": (one("MR1_1", 2, "T0", "G_t1", 1, ifaults=2, crash="UserOnly"), A1, T()),
     # one failure with traffic during and after the restart (three messages, no stop request)
     "one_i": (one("MR1_1", 3, "T0", "G_t1", 1, crash="UserOnly"), A1, T()),
+    # two failures, the first with a message queued behind it (replayed successfully): the budget is for the whole life
+    "one_j": (one("MR1_1", 3, "T0", "G_t1", 2, crash="UserOnly"), A1, T()),
     # the Stopped handler itself panics (after poison, after stop, after a crash)
     "one_s": (one("MR1_1", 1, "T1", "G_t1", 2, crash="StoppedAndUser"), A1, T(t1=("A", True))),
     "pair_a": (I("Pair", "ParentPair", "RootP", "KidsPair", "MRc0p1", 1, "SendC", "T1", "T1onP", "G_t1", 1), pair(1, 0), T(t1=("P", True))),
@@ -79,13 +81,13 @@ PLAN = {
         "C02": ["one_a", "one_c", "one_d", "one_f", "one_i", "pair_a"],
         "C04": ["one_a", "one_b", "one_c", "one_d", "one_g", "one_s", "pair_a"],
         "C05": ["one_a", "one_c", "one_f", "one_g", "one_h", "one_s", "pair_a"],
-        "C06": ["one_c", "one_d", "one_f", "one_g", "pair_a", "pair_b"],
+        "C06": ["one_c", "one_d", "one_f", "one_g", "one_j", "pair_a", "pair_b"],
         "C07": ["one_a", "one_b", "one_d", "one_s", "pair_a", "chain_b"],
         "C08": ["pair_a", "pair_b", "chain_a", "chain_b", "fan_a"],
         "C13": ["one_a", "one_c", "one_d", "one_g", "pair_a"],
         "C12": ["one_a", "one_c", "one_d", "pair_a"],
     },
-    "thorough": {p: ["one_a", "one_b", "one_c", "one_d", "one_e", "one_f", "one_g", "one_h", "one_i", "one_s", "pair_a", "pair_b", "chain_a", "chain_b", "fan_a"]
+    "thorough": {p: ["one_a", "one_b", "one_c", "one_d", "one_e", "one_f", "one_g", "one_h", "one_i", "one_j", "one_s", "pair_a", "pair_b", "chain_a", "chain_b", "fan_a"]
                  for p in ("C02", "C04", "C05", "C06", "C07", "C08", "C13", "C12")},
 }
 
